@@ -1,10 +1,32 @@
 """C16: results stay correct when intermediates exceed 128 bits.
 
-fpdec-core: 128x128 -> 256 bit multiplication, 256/64 and 256/128 bit division, the floor
-sign fix-ups on top of them, and the two rounded callers used by mul/div (C02/C03/C04).
+fpdec-core: 128x128 -> 256 bit multiplication (u128_hi/lo, u128_mul_u128), 256/64 bit long division
+(u256_idiv_u64), 256/128 bit division (u128_msb, u256_idiv_u128_special = Knuth D for 4/2 limbs,
+u256_idiv_u128 dispatcher), the floor sign fix-ups on top of them (i128_shifted_div_mod_floor,
+i256_div_mod_floor) and the two rounded callers used by mul/div (C02/C03/C04).  Every function is
+verified with its real body; nothing is assumed (vstd specifies wrapping_mul/add/sub, so there is no
+spec/std_wide.rs).  Mathematics and lemmas: spec/wide.rs.
 
-Contracts (`contracts()`) are reusable as callee contracts: `add_wide_items(u)` emits them as
-external_body stubs into another unit (their bodies are verified here, in the home unit).
+Contracts (`contracts()`) are reusable as callee contracts: `add_wide_items(u)` emits the four public
+entry points as external_body stubs into another unit (bodies are verified here, in the home unit).
+
+How the proofs are attached without touching bodies: straight-line functions get one lemma call over the
+parameters at entry (schoolbook multiplication / long division stated in mathematics); the Knuth function
+gets loop invariants in terms of spec predicates (digit_ctx / digit_inv / digit_done / norm_ok) and
+broadcast lemmas triggered on exactly those predicate terms (group_knuth), plus one explicit lemma call
+at the head of each correction-loop body.
+
+Findings on the unfixed tree (do not weaken the contracts):
+ * D5: C16.shifted.quot/.rem and C16.i256.quot/.rem fail: for an exact negative quotient the fix-ups
+   return (-q-1, y) instead of (-q, 0)   (fix: fixes/D5.diff).
+ * same fix-up, documented negative-divisor case x >= 0, y < 0: `r -= y` must be `r += y`
+   (C16.shifted.neg_divisor.quot/.rem fail, and `r -= y` can overflow); not reachable from fpdec itself,
+   which always passes a positive divisor (also in fixes/D5.diff).
+ * C20-class site (D-run, overflow diagnostics in round_quot `quot + 1`): when the floor quotient is
+   exactly i128::MAX with a non-zero remainder and the mode rounds up, the rounded callers overflow
+   (dev: panic "attempt to add with overflow"; release: Some(i128::MIN)) instead of returning None,
+   e.g. i128_mul_div_ten_pow_rounded(2^64+1, 5*(2^64-1), 1, RoundCeiling).  This is what the
+   `*.no_overflow_in_rounding` ok-clauses express.
 """
 from vgen import Unit, Contract as C, Loop
 import core_kernel
@@ -146,16 +168,23 @@ def contracts():
     return d
 
 
-ORDER = ['u128_msb', 'u128_hi', 'u128_lo', 'u128_mul_u128', 'u256_idiv_u64', 'u256_idiv_u128_special',
-         'u256_idiv_u128', 'i128_shifted_div_mod_floor', 'i256_div_mod_floor']
-ROUNDED = ['rounding::i128_shifted_div_rounded', 'rounding::i128_mul_div_ten_pow_rounded']
+INTERNAL = ['u128_msb', 'u128_hi', 'u128_lo', 'u128_mul_u128', 'u256_idiv_u64', 'u256_idiv_u128_special',
+            'u256_idiv_u128']
+PUBLIC = ['i128_shifted_div_mod_floor', 'i256_div_mod_floor',
+          'rounding::i128_shifted_div_rounded', 'rounding::i128_mul_div_ten_pow_rounded']
 
 
-def add_wide_items(u, verify=False, rounded=True):
+def add_wide_items(u, verify=False, internal=None):
     """Emit the wide-arithmetic functions of fpdec-core into unit `u` (after core_kernel.add_core_items).
-    verify=False: as external_body stubs carrying the contracts proved in unit `wide`."""
+
+    verify=False (other units): the four public entry points as external_body stubs carrying the
+    contracts whose bodies are verified in the home unit `wide`; their contracts only use spec/base.rs
+    and spec/rounding.rs vocabulary (floor_quot, floor_rem, abs_int, pow10, round_div, eff_mode).
+    verify=True (home unit): all functions with their real bodies (needs spec/wide.rs)."""
     cs = contracts()
-    for k in ORDER + (ROUNDED if rounded else []):
+    if internal is None:
+        internal = verify
+    for k in (INTERNAL if internal else []) + PUBLIC:
         c = cs[k]
         if not verify:
             c.stub = True
